@@ -38,7 +38,7 @@ pub fn invariants(o: &Obs, s: &str) -> Result<(), String> {
     Ok(())
 }
 
-fn strings_for(c: &PieceCase, ty: &str) -> String {
+pub fn strings_for(c: &PieceCase, ty: &str) -> String {
     let joined = c.pieces.join("/");
     match c.context {
         0 => format!("pkg:{ty}/{joined}/n@1?k=v"),
@@ -181,7 +181,7 @@ fn gpiece() -> BoxedStrategy<String> {
     .boxed()
 }
 
-fn gpieces() -> BoxedStrategy<PieceCase> {
+pub fn gpieces() -> BoxedStrategy<PieceCase> {
     (prop_oneof![6 => proptest::collection::vec(gpiece(), 0..=6), 1 => proptest::collection::vec(gpiece(), 7..=14)], 0u8..3)
         .prop_map(|(pieces, context)| PieceCase { pieces, context })
         .boxed()
